@@ -44,10 +44,10 @@ func (prop) Rule() string {
 }
 
 type args struct {
-	Mode    string `json:"mode"` // "tcp" | "inproc"
-	Batches int    `json:"batches"`
-	PerBatch int   `json:"per_batch"`
-	Index   int    `json:"index"`
+	Mode     string `json:"mode"` // "tcp" | "inproc"
+	Batches  int    `json:"batches"`
+	PerBatch int    `json:"per_batch"`
+	Index    int    `json:"index"`
 }
 
 func (prop) Plan(tier string, seed int64) []core.Batch {
@@ -84,13 +84,15 @@ func (prop) Run(b core.Batch, em *core.Emitter) {
 // ---------------------------------------------------------------------------------------------
 // the server child
 
-var hostileBits = []int{1, 2, 9, 10, 11, 20, 21, 24, 26, 32, 38, 39, 40}
+// The hostile account may disconnect users (22): the sentinels hold cannot-be-disconnected (23), so the only users a
+// hostile session can legitimately remove are other hostile sessions.
+var hostileBits = []int{1, 2, 9, 10, 11, 20, 21, 22, 24, 26, 32, 38, 39, 40}
 
 func accounts() []fixture.Account {
 	return []fixture.Account{
 		{Login: "guest", Name: "guest", Access: fixture.GuestBits()},
-		{Login: "sguest", Name: "Sentinel Guest", Access: fixture.GuestBits()},
-		{Login: "sfile", Name: "Sentinel File", Access: rc.Bitmap(0, 1, 2, 3, 4, 5, 9, 10, 20, 25, 26, 38, 39)},
+		{Login: "sguest", Name: "Sentinel Guest", Access: rc.Bitmap(2, 39, 1, 38, 9, 10, 11, 20, 21, 23, 26, 40)},
+		{Login: "sfile", Name: "Sentinel File", Access: rc.Bitmap(0, 1, 2, 3, 4, 5, 9, 10, 20, 23, 25, 26, 38, 39)},
 		{Login: "sadmin", Name: "Sentinel Admin", Access: rc.AllBits()},
 		{Login: "scratch", Name: "Scratch", Password: "x", Access: rc.Bitmap(2)},
 		{Login: "hostile", Name: "Hostile", Access: rc.Bitmap(hostileBits...)},
@@ -361,7 +363,9 @@ func mutate(r *core.Rand, typ int, id uint32) ([]byte, string) {
 		t.IsReply = 1
 	}
 	b := t.Encode()
-	put := func(off int, v uint32) { b[off], b[off+1], b[off+2], b[off+3] = byte(v>>24), byte(v>>16), byte(v>>8), byte(v) }
+	put := func(off int, v uint32) {
+		b[off], b[off+1], b[off+2], b[off+3] = byte(v>>24), byte(v>>16), byte(v>>8), byte(v)
+	}
 	trueSize := uint32(len(b) - 20)
 	szs := append([]uint32{trueSize - 1, trueSize + 1}, hostileSizes...)
 	switch class {
@@ -434,7 +438,9 @@ func hostileTransferStream(r *core.Rand, ref []byte, kind string) ([]byte, strin
 		info := rc.InfoFork{Name: []byte("h.bin"), Comment: r.Printable(r.Intn(20))}
 		return rc.FlatHeader(info, dataSize, forks)
 	}
-	set32 := func(b []byte, off int, v uint32) { b[off], b[off+1], b[off+2], b[off+3] = byte(v>>24), byte(v>>16), byte(v>>8), byte(v) }
+	set32 := func(b []byte, off int, v uint32) {
+		b[off], b[off+1], b[off+2], b[off+3] = byte(v>>24), byte(v>>16), byte(v>>8), byte(v)
+	}
 	switch class {
 	case "bad-magic":
 		p := append([]byte{}, pre...)
@@ -487,13 +493,13 @@ func hostileTransferStream(r *core.Rand, ref []byte, kind string) ([]byte, strin
 // monitor A
 
 type child struct {
-	cmd        *exec.Cmd
-	stdin      io.WriteCloser
-	lines      chan string
-	ctl, xfer  int
-	logPath    string
-	exited     chan struct{}
-	exitErr    error
+	cmd       *exec.Cmd
+	stdin     io.WriteCloser
+	lines     chan string
+	ctl, xfer int
+	logPath   string
+	exited    chan struct{}
+	exitErr   error
 }
 
 func startChild(scratch string) (*child, error) {
@@ -615,9 +621,9 @@ func runTCP(b core.Batch, a args, em *core.Emitter) {
 		return true
 	}
 	type sentinel struct {
-		name    string
-		cl      *tcpClient
-		probe   func(cl *tcpClient) error
+		name  string
+		cl    *tcpClient
+		probe func(cl *tcpClient) error
 	}
 	mk := func(src, account, name string, probe func(cl *tcpClient) error) (*sentinel, error) {
 		cl, err := login(src, ch.ctl, account, name)
